@@ -88,7 +88,7 @@ pub fn call_ep(ep: usize, b: &[u8]) -> Result<bool, String> {
         13..=18 => guard(|| {
             let mut any = false;
             for rc in RECEIVERS {
-                let mut l: Locale = rc.parse().unwrap();
+                let Ok(mut l) = rc.parse::<Locale>() else { continue };
                 let u = &mut l.extensions.unicode;
                 match ep {
                     13 => {
@@ -301,7 +301,10 @@ pub fn run_c01(ctx: &mut Ctx) {
             for_triples(ctx, &u, &lk, &mut |ctx, l, s, r| {
                 ctx.evals += 1;
                 ctx.count("triples: maximize+minimize+character_direction");
-                let t = crate::engines::likelyeng::to_lib(l, s, r).unwrap();
+                let Some(t) = crate::engines::likelyeng::to_lib(l, s, r) else {
+                    ctx.count("setup: CLDR subtag rejected by the library (triple skipped)");
+                    return;
+                };
                 let res = guard(|| {
                     let a = unic_langid_impl::likelysubtags::maximize(t.0, t.1, t.2).is_some();
                     let b = unic_langid_impl::likelysubtags::minimize(t.0, t.1, t.2).is_some();
